@@ -227,21 +227,35 @@ class Program:
         self.gp += 1
 
     # ---------------------------------------------------------------- request construction
-    def make_put(self, q, v, zero_ok=False):
+    def pick_form(self, v, st, cnt, sd, family):
+        """API form for a request; family 'n' = varn, 'a' = var1/vara/vars (one collective call must use
+        one family on all ranks: put_varn_all and put_vara_all perform different collective sequences)"""
+        rng = self.rng
+        need_stride = any(t != 1 for t in sd)
+        if family == 'n':
+            return None if need_stride else 'varn'
+        opts = ['vars', 'vars'] if need_stride else ['vara', 'vara', 'vars']
+        if not need_stride and v.nd > 0 and all(c == 1 for c in cnt):
+            opts.append('var1')
+        if family is None and not need_stride:
+            opts += ['varn']
+        return rng.choice(opts)
+
+    def make_put(self, q, v, zero_ok=False, family=None):
         """a put request of rank q on variable v obeying the element rules; returns
         (acc string, parsed, keys, vals, recs) or None"""
         rng = self.rng
         for _ in range(12):
-            st, cnt, sd = rand_request(rng, v, 0, True, maxrec=4, strided=None)
+            st, cnt, sd = rand_request(rng, v, 0, True, maxrec=4, strided=(False if family == 'n' else None))
             tok, k, flex = memtype_for(rng, v)
-            form = None
-            if v.nd and rng.chance(1, 12) and not v.isrec:
+            if v.nd and family != 'n' and rng.chance(1, 12) and not v.isrec:
                 form = 'var'
                 st, cnt, sd = [0] * v.nd, list(v.shape), [1] * v.nd
-            forms_ok = ['var1', 'vara', 'vars', 'varn']
+            else:
+                form = self.pick_form(v, st, cnt, sd, family)
+                if form is None:
+                    continue
             acc = access_tokens(rng, v, st, cnt, sd, tok, k, flex, form=form)
-            if acc.split()[1] == 'varm':
-                acc = access_tokens(rng, v, st, cnt, sd, tok, k, flex, form='vars')
             p = parse_acc(acc)
             if p['form'] == 'var':
                 p['parts'] = [([0] * v.nd, list(v.shape), None)]
@@ -261,25 +275,28 @@ class Program:
                 return acc, p, keys, vals, part_recs(v.isrec, p['parts'])
         return None
 
-    def zero_put(self, v):
-        """a zero-length vara request (collective participation)"""
+    def zero_put(self, v, family='a'):
+        """a zero-length request (collective participation)"""
         if v.nd == 0:
             return None
         st = [0] * v.nd; cnt = [0] + [1] * (v.nd - 1)
+        if family == 'n':
+            return '%d varn t%d c 1 %d %s %s' % (v.vid, v.xtype, v.nd, fmt_list(st), fmt_list(cnt))
         return '%d vara t%d c %d %s %s' % (v.vid, v.xtype if v.xtype != 2 else 2, v.nd, fmt_list(st), fmt_list(cnt))
 
-    def make_get(self, q, v):
+    def make_get(self, q, v, family=None):
         rng = self.rng
         readable = [k for k in self.val if k[0] == v.vid and self.can_read(q, k)]
         if not readable:
             return None
         maxrec = max([k[1][0] for k in readable]) + 1 if v.isrec else 0
         for _ in range(10):
-            st, cnt, sd = rand_request(rng, v, maxrec, False, strided=None)
+            st, cnt, sd = rand_request(rng, v, maxrec, False, strided=(False if family == 'n' else None))
             tok, k, flex = memtype_for(rng, v)
-            acc = access_tokens(rng, v, st, cnt, sd, tok, k, flex)
-            if acc.split()[1] == 'varm':
-                acc = access_tokens(rng, v, st, cnt, sd, tok, k, flex, form='vars')
+            form = self.pick_form(v, st, cnt, sd, family)
+            if form is None:
+                continue
+            acc = access_tokens(rng, v, st, cnt, sd, tok, k, flex, form=form)
             p = parse_acc(acc)
             keys = part_keys(v.vid, p['parts'])
             if keys and all(self.can_read(q, kk) for kk in keys):
@@ -290,10 +307,9 @@ class Program:
         kk = rng.choice(sorted(readable))
         tok, k, flex = ('t%d' % v.xtype), v.xtype, False
         st = list(kk[1])
-        acc = access_tokens(rng, v, st, [1] * v.nd, [1] * v.nd, tok, k, flex, form='var1' if v.nd else 'var')
+        acc = access_tokens(rng, v, st, [1] * v.nd, [1] * v.nd, tok, k, flex,
+                            form=('varn' if family == 'n' else 'var1') if v.nd else ('varn' if family == 'n' else 'vara'))
         p = parse_acc(acc)
-        if p['form'] == 'var':
-            p['parts'] = [([], [], None)]
         p['memk'] = v.xtype
         return acc, p, [kk]
 
@@ -309,18 +325,19 @@ class Program:
         """collective mode: every rank calls put_<form>_all on the same variable"""
         rng = self.rng
         v = rng.choice(self.s.vars)
+        family = 'n' if rng.chance(1, 5) else 'a'
         reqs = []
         tmp_taken = set()
         for q in range(self.np):
             r = None
             if rng.chance(4, 5):
                 for _ in range(4):
-                    r = self.make_put(q, v)
+                    r = self.make_put(q, v, family=family)
                     if r and not (set(r[2]) & tmp_taken):
                         break
                     r = None
             if r is None:
-                z = self.zero_put(v)
+                z = self.zero_put(v, family)
                 if z is None:
                     return False
                 reqs.append(('zero', z))
@@ -451,9 +468,10 @@ class Program:
         """get of each rank in `ranks` (collective group when not independent)"""
         rng = self.rng
         v = v or rng.choice(self.s.vars)
+        family = None if self.indep else ('n' if rng.chance(1, 5) else 'a')
         per = {}
         for q in ranks:
-            g = self.make_get(q, v)
+            g = self.make_get(q, v, family)
             if g:
                 per[q] = g
         if not per:
@@ -474,7 +492,8 @@ class Program:
                     ln = self.emit('%s get 0 c %s' % (w, acc), kind='get', rank=q, keys=keys, p=p, lag=self.lag, exp=[self.val[k] for k in keys])
                 else:
                     st = [0] * v.nd; cnt = [0] + [1] * (v.nd - 1)
-                    ln = self.emit('%s get 0 c %d vara t%d c %d %s %s' % (w, v.vid, v.xtype, v.nd, fmt_list(st), fmt_list(cnt)),
+                    ln = self.emit('%s get 0 c %d %s t%d c %s%d %s %s' % (w, v.vid, 'varn' if family == 'n' else 'vara', v.xtype,
+                                                                       '1 ' if family == 'n' else '', v.nd, fmt_list(st), fmt_list(cnt)),
                                    kind='zget', rank=q)
                     keys = []
                 first = first or ln
